@@ -1,4 +1,5 @@
-//! The fixed universe of service keys (6 concrete types, 2 trait objects, names {None,"a","b"})
+//! The fixed universe of service keys (6 concrete types, 2 trait objects, 16 names: {None,"a","b"}
+//! plus 13 confusable names, see `name_of`)
 //! and the typed dispatch from (type index, name) onto the public fibre_ioc API: every
 //! registration form of `Container` / `LocalContainer`, `get`, and the four resolution macros.
 
@@ -13,13 +14,78 @@ use std::sync::{Arc, Mutex, MutexGuard, Weak};
 /// type indices 0..6 are the concrete types `Ty<0>`..`Ty<5>`, 6 = `dyn TrA`, 7 = `dyn TrB`
 pub const NTY: u8 = 8;
 pub const NCONCRETE: u8 = 6;
-pub const NNAMES: u8 = 3;
+/// Size of the name universe.  Indices 0..=2 keep their historical meaning (existing replay
+/// files use them); 3.. are the *confusable* names: names a key implementation could plausibly
+/// conflate with another key (trimming, case folding, C-string truncation, unicode
+/// normalisation, "empty means unnamed", formatting the key as text, hashing only a prefix).
+/// The model stays keyed on the exact `(type index, name index)`, i.e. on the exact
+/// `(TypeId, Option<String>)` — "Services are keyed by type and optional name".
+pub const NNAMES: u8 = 16;
+/// names 0..PLAIN_NAMES are the ordinary ones ({None,"a","b"})
+pub const PLAIN_NAMES: u8 = 3;
+
+fn long_name(last: char) -> &'static str {
+  // 1 KiB of identical characters, then one distinguishing character at the very end
+  let mut s = "x".repeat(1024);
+  s.push(last);
+  Box::leak(s.into_boxed_str())
+}
 
 pub fn name_of(n: u8) -> Option<&'static str> {
+  static LONG: std::sync::OnceLock<(&'static str, &'static str)> = std::sync::OnceLock::new();
   match n {
     0 => None,
     1 => Some("a"),
-    _ => Some("b"),
+    2 => Some("b"),
+    // the empty name is a name: (T, Some("")) is not (T, None)
+    3 => Some(""),
+    // differs from "a" only in case
+    4 => Some("A"),
+    // ... only in trailing / leading whitespace
+    5 => Some("a "),
+    6 => Some(" a"),
+    // ... only in a trailing NUL (C-string truncation)
+    7 => Some("a\0"),
+    // U+00E9 precomposed and "e" + U+0301 combining: equal after unicode normalisation only
+    8 => Some("\u{e9}"),
+    9 => Some("e\u{301}"),
+    // fullwidth "a" (equal to "a" under NFKC)
+    10 => Some("\u{ff41}"),
+    // a name equal to the name of a type of the universe
+    11 => Some(std::any::type_name::<Ty<0>>()),
+    // two long names that differ in their last character only
+    12 => Some(LONG.get_or_init(|| (long_name('1'), long_name('2'))).0),
+    13 => Some(LONG.get_or_init(|| (long_name('1'), long_name('2'))).1),
+    // the textual form of "no name"
+    14 => Some("None"),
+    // a lone NUL (empty as a C string)
+    _ => Some("\0"),
+  }
+}
+
+/// Pairs of name indices a sloppy key implementation could conflate (used by generators that
+/// want both members of a pair in one case; the oracle never needs it).
+pub const TWINS: [(u8, u8); 12] = [(0, 3), (0, 14), (0, 15), (3, 15), (1, 4), (1, 5), (1, 6), (1, 7), (1, 10), (8, 9), (12, 13), (5, 6)];
+
+/// short printable label of a name index for class names and messages
+pub fn name_label(n: u8) -> &'static str {
+  match n.min(NNAMES - 1) {
+    0 => "unnamed",
+    1 => "a",
+    2 => "b",
+    3 => "empty",
+    4 => "upper_A",
+    5 => "a_space",
+    6 => "space_a",
+    7 => "a_nul",
+    8 => "e_acute_nfc",
+    9 => "e_acute_nfd",
+    10 => "fullwidth_a",
+    11 => "type_name",
+    12 => "long_1",
+    13 => "long_2",
+    14 => "text_None",
+    _ => "nul",
   }
 }
 
@@ -32,7 +98,11 @@ pub struct Inst {
   pub imp: u8,
 }
 
-pub struct Ty<const N: u8>(pub Inst);
+/// What a service instance may own besides its payload: something whose `Drop` does work
+/// (E5 uses it: an old instance whose teardown takes a while is legitimate user code).
+pub type Tail = Option<Box<dyn Any + Send + Sync>>;
+
+pub struct Ty<const N: u8>(pub Inst, pub Tail);
 
 pub trait TrA: Send + Sync {
   fn inst(&self) -> &Inst;
@@ -43,7 +113,7 @@ pub trait TrB: Send + Sync {
   fn imp_type(&self) -> u8;
 }
 /// two impl types for each trait, so that a trait key can be re-registered with another impl
-pub struct Im<const K: u8>(pub Inst);
+pub struct Im<const K: u8>(pub Inst, pub Tail);
 impl<const K: u8> TrA for Im<K> {
   fn inst(&self) -> &Inst {
     &self.0
@@ -259,51 +329,60 @@ pub fn lget(c: &LocalContainer, ty: u8, name: Option<&str>, via: Via) -> Option<
 // registration
 // ---------------------------------------------------------------------------------------------
 
-fn creg_n<const N: u8>(c: &Container, name: Option<&str>, form: Form, f: impl Fn() -> Inst + Send + Sync + 'static) {
+fn creg_n<const N: u8>(c: &Container, name: Option<&str>, form: Form, f: impl Fn() -> (Inst, Tail) + Send + Sync + 'static) {
+  let mk = move || {
+    let (i, t) = f();
+    Ty::<N>(i, t)
+  };
   match (form, name) {
-    (Form::Instance, None) => c.add_instance(Ty::<N>(f())),
-    (Form::Instance, Some(n)) => c.add_instance_with_name(n, Ty::<N>(f())),
-    (Form::Singleton, None) => c.add_singleton(move || Ty::<N>(f())),
-    (Form::Singleton, Some(n)) => c.add_singleton_with_name(n, move || Ty::<N>(f())),
-    (Form::Transient, None) => c.add_transient(move || Ty::<N>(f())),
-    (Form::Transient, Some(n)) => c.add_transient_with_name(n, move || Ty::<N>(f())),
-    (Form::SingletonArc, None) => c.add_singleton_trait::<Ty<N>>(move || Arc::new(Ty::<N>(f()))),
-    (Form::SingletonArc, Some(n)) => c.add_singleton_trait_with_name::<Ty<N>>(n, move || Arc::new(Ty::<N>(f()))),
+    (Form::Instance, None) => c.add_instance(mk()),
+    (Form::Instance, Some(n)) => c.add_instance_with_name(n, mk()),
+    (Form::Singleton, None) => c.add_singleton(mk),
+    (Form::Singleton, Some(n)) => c.add_singleton_with_name(n, mk),
+    (Form::Transient, None) => c.add_transient(mk),
+    (Form::Transient, Some(n)) => c.add_transient_with_name(n, mk),
+    (Form::SingletonArc, None) => c.add_singleton_trait::<Ty<N>>(move || Arc::new(mk())),
+    (Form::SingletonArc, Some(n)) => c.add_singleton_trait_with_name::<Ty<N>>(n, move || Arc::new(mk())),
   }
 }
 
-fn arc_a(imp: u8, i: Inst) -> Arc<dyn TrA> {
+fn arc_a(imp: u8, (i, t): (Inst, Tail)) -> Arc<dyn TrA> {
   if imp == 0 {
-    Arc::new(Im::<0>(i))
+    Arc::new(Im::<0>(i, t))
   } else {
-    Arc::new(Im::<1>(i))
+    Arc::new(Im::<1>(i, t))
   }
 }
-fn arc_b(imp: u8, i: Inst) -> Arc<dyn TrB> {
+fn arc_b(imp: u8, (i, t): (Inst, Tail)) -> Arc<dyn TrB> {
   if imp == 0 {
-    Arc::new(Im::<0>(i))
+    Arc::new(Im::<0>(i, t))
   } else {
-    Arc::new(Im::<1>(i))
+    Arc::new(Im::<1>(i, t))
   }
 }
 fn rc_a(imp: u8, i: Inst) -> Rc<dyn TrA> {
   if imp == 0 {
-    Rc::new(Im::<0>(i))
+    Rc::new(Im::<0>(i, None))
   } else {
-    Rc::new(Im::<1>(i))
+    Rc::new(Im::<1>(i, None))
   }
 }
 fn rc_b(imp: u8, i: Inst) -> Rc<dyn TrB> {
   if imp == 0 {
-    Rc::new(Im::<0>(i))
+    Rc::new(Im::<0>(i, None))
   } else {
-    Rc::new(Im::<1>(i))
+    Rc::new(Im::<1>(i, None))
   }
 }
 
 /// Register (ty, name) on a thread-safe container.  Trait keys (6, 7) always use
 /// `add_singleton_trait[_with_name]`, the only form the API offers for unsized keys.
 pub fn creg(c: &Container, ty: u8, name: Option<&str>, form: Form, imp: u8, f: impl Fn() -> Inst + Send + Sync + 'static) {
+  creg_t(c, ty, name, form, imp, move || (f(), None))
+}
+
+/// `creg` for factories that also give the instance a `Tail`.
+pub fn creg_t(c: &Container, ty: u8, name: Option<&str>, form: Form, imp: u8, f: impl Fn() -> (Inst, Tail) + Send + Sync + 'static) {
   per_concrete!(ty, N => creg_n::<N>(c, name, form, f), else match (ty, name) {
     (6, None) => c.add_singleton_trait::<dyn TrA>(move || arc_a(imp, f())),
     (6, Some(n)) => c.add_singleton_trait_with_name::<dyn TrA>(n, move || arc_a(imp, f())),
@@ -316,12 +395,12 @@ pub fn creg(c: &Container, ty: u8, name: Option<&str>, form: Form, imp: u8, f: i
 fn lreg_n<const N: u8>(c: &mut LocalContainer, name: Option<&str>, form: Form, f: impl Fn() -> Inst + 'static) {
   match (form, name) {
     (Form::Instance, _) => unreachable!("normalised away: LocalContainer has no add_instance"),
-    (Form::Singleton, None) => c.add_singleton(move || Ty::<N>(f())),
-    (Form::Singleton, Some(n)) => c.add_singleton_with_name(n, move || Ty::<N>(f())),
-    (Form::Transient, None) => c.add_transient(move || Ty::<N>(f())),
-    (Form::Transient, Some(n)) => c.add_transient_with_name(n, move || Ty::<N>(f())),
-    (Form::SingletonArc, None) => c.add_singleton_trait::<Ty<N>>(move || Rc::new(Ty::<N>(f()))),
-    (Form::SingletonArc, Some(n)) => c.add_singleton_trait_with_name::<Ty<N>>(n, move || Rc::new(Ty::<N>(f()))),
+    (Form::Singleton, None) => c.add_singleton(move || Ty::<N>(f(), None)),
+    (Form::Singleton, Some(n)) => c.add_singleton_with_name(n, move || Ty::<N>(f(), None)),
+    (Form::Transient, None) => c.add_transient(move || Ty::<N>(f(), None)),
+    (Form::Transient, Some(n)) => c.add_transient_with_name(n, move || Ty::<N>(f(), None)),
+    (Form::SingletonArc, None) => c.add_singleton_trait::<Ty<N>>(move || Rc::new(Ty::<N>(f(), None))),
+    (Form::SingletonArc, Some(n)) => c.add_singleton_trait_with_name::<Ty<N>>(n, move || Rc::new(Ty::<N>(f(), None))),
   }
 }
 
@@ -440,8 +519,9 @@ thread_local! {
   static DEPTH: std::cell::Cell<u32> = const { std::cell::Cell::new(0) };
 }
 
-/// More nested factories than this means some factory runs inside itself: the universe has
-/// 3 x 24 keys, so an acyclic dependency chain is at most 72 long.
+/// More nested factories than this means some factory runs inside itself: an acyclic dependency
+/// chain cannot be longer than the number of registrations of the case, and a generated history
+/// has at most 30 chunks x 5 registrations = 150 of them (quick: 14 x 5).
 pub const MAX_DEPTH: u32 = 200;
 pub const DEPTH_PANIC: &str = "HARNESS: unbounded factory recursion";
 
